@@ -125,6 +125,16 @@ def c02(tier):
     bad, ro = run_lexobs(sc, X["lcases"], lruns)
     for b in bad:
         run, c = lruns[b["r"]], acc[b["c"]]
+        got, want = b["got"], b["want"]
+        k = 0
+        while k < len(got) and k < len(want) and got[k] == want[k]:
+            k += 1
+        nbytes = sum(w for _, w in run["chars"])
+        if k < len(got) and k < len(want) and got[k][0] == 0 and want[k][0] == 1 and got[k][1] == want[k][1] and got[k][1] < nbytes:
+            # plain EOF although characters of an unfinished token were consumed: the start state was merged with a mid-token state
+            rep.failure("c02.eof-in-start-state-instead-of-error", "spec %s input %r: EOF at offset %d of %d where the rules define an error" % (
+                c["id"], show_input(run["chars"]), got[k][1], nbytes), lreplay(c, run, {"want": want}))
+            continue
         rep.failure("c02.token-stream-differs:" + c["id"],
                     "spec %s input %r: tokens %s, rules define %s" % (c["id"], show_input(run["chars"]), b["got"], b["want"]),
                     lreplay(c, run, {"want": b["want"]}))
